@@ -112,11 +112,36 @@ GraphUnitRooted ==
    cyclic |-> Cyclic,
    docs |-> SetToSeq(DocsAt("A", Depth))]
 
+\* ... and with every definition COMPOSED: {"type": "object", "allOf": [{the reference properties}, {v}]}, the "extends a
+\* base" idiom; a definition on a cycle is then an object without properties of its own whose fields come from the merge
+\* (two definitions only)
+ComposedSchema(d) ==
+  [type |-> <<"object">>,
+   allOf |-> << ("type" :> <<"object">>) @@
+                ("properties" :> [i \in DOMAIN Edge[d] |->
+                       [k |-> Edge[d][i].name,
+                        s |-> IF Edge[d][i].via = "prop" THEN RefTo(Edge[d][i].to)
+                              ELSE IF Edge[d][i].via = "allof" THEN [allOf |-> <<RefTo(Edge[d][i].to)>>]
+                              ELSE [type |-> <<"array">>, items |-> RefTo(Edge[d][i].to)]]]),
+                ("type" :> <<"object">>) @@ ("properties" :> <<[k |-> "v", s |-> Int1]>>) >>]
+GraphUnitComposed ==
+  [prop |-> "C10", kind |-> "graphcomposed", ndefs |-> NDefs,
+   schema |-> ("type" :> <<"object">>) @@ ("properties" :> <<[k |-> "a", s |-> RefTo("A")]>>),
+   defs |-> [i \in 1..NDefs |-> [k |-> Order[i], s |-> ComposedSchema(Order[i])]],
+   gonames |-> [i \in 1..NDefs |-> [k |-> Order[i], reach |-> TRUE]],
+   allofcycle |-> AllOfCycle(Defs), nobuild |-> IF AllOfCycle(Defs) THEN <<"RecursiveAllOfUnsupported">> ELSE <<>>,
+   edges |-> [i \in 1..NDefs |-> [k |-> Order[i], e |-> Edge[Order[i]]]],
+   cyclic |-> Cyclic,
+   docs |-> SetToSeq({JObj(<<KV("a", sub)>>) : sub \in DocsAt("A", Depth)})]
+\* definitions without any edge have an EMPTY first branch: not the idiom, left out
+Composable == NDefs = 2 /\ \A d \in Defs : Edge[d] # <<>>
+
 DesignOK == StepsBounded /\ OncePerDef /\ AllDeclared /\ ScopeEmpty
 AsIsOK == TRUE
 Init == GInit
 Next == GNext
 Spec == GSpec
 Emit == Finished => (UnitsFile = "" \/ (PrintT("UNIT " \o ToJson(GraphUnit)) /\ PrintT("UNIT " \o ToJson(GraphUnitFiles))
-                                         /\ PrintT("UNIT " \o ToJson(GraphUnitRooted))))
+                                         /\ PrintT("UNIT " \o ToJson(GraphUnitRooted))
+                                         /\ (~Composable \/ PrintT("UNIT " \o ToJson(GraphUnitComposed)))))
 =============================================================================
